@@ -48,7 +48,9 @@ SubStart(k) ==
 SerStep(k) ==
   LET o == ops[k]  n1 == At(k + 1)  n2 == At(k + 2)  n3 == At(k + 3) IN
   CASE o.op = "Close" ->
-         \* the parser keeps `last` across h / s / b: so does the serializer's current point
+         \* the parser keeps `last` across h / s / b: so does the serializer's current point. That agreement is what the
+         \* round trip needs; the operator table moves the current point to the subpath's start (recorded finding
+         \* table:v:current-point-after-*, probed by the table part of the replay)
          \* (deviation: a serializer that follows the graphics model and moves back to the subpath's start)
          LET c == IF "close_moves_current" \in Dev THEN SubStart(k) ELSE cur IN
          (CASE n1.op = "Stroke" -> <<Tok("s", <<>>), 2, c>>
@@ -67,7 +69,9 @@ SerStep(k) ==
           ELSE <<Tok("Tw", o.a), 1, cur>>)
     [] o.op = "Leading" ->
          \* translation = <<x, y>>; the shorthand TD means: leading = -y
-         (IF n1.op = "MoveText" /\ (IF "td_uses_x" \in Dev THEN o.a[1] = 0 - n1.a[1] ELSE o.a[1] = 0 - n1.a[2])
+         (IF n1.op = "MoveText" /\ (IF "td_uses_x" \in Dev THEN o.a[1] = 0 - n1.a[1]
+                                   ELSE IF "td_ignores_sign" \in Dev THEN (o.a[1] = n1.a[2] \/ o.a[1] = 0 - n1.a[2])
+                                   ELSE o.a[1] = 0 - n1.a[2])
           THEN <<Tok("TD", n1.a), 2, cur>>
           ELSE <<Tok("TL", o.a), 1, cur>>)
     [] o.op = "TextNewline" ->
